@@ -557,6 +557,10 @@ class MixedEdgeGraph:
         """
         G = self.__class__()
         G.graph.update(self.graph)
+        # a subclass constructor may pre-create edge types; keep only those this graph still has
+        for edge_type in G.edge_types:
+            if edge_type not in self._edge_graphs:
+                G.remove_edge_type(edge_type)
 
         # add all internal graphs to the copy
         int_graph_copies = []
@@ -901,6 +905,10 @@ class MixedEdgeGraph:
         # initialize list of empty internal graphs
         graph_classes = [self._internal_graph_nx_type(edge_type)() for edge_type in self.edge_types]
         graph = self.__class__(**self.graph).copy()
+        # a subclass constructor may pre-create edge types; keep only those this graph still has
+        for edge_type in graph.edge_types:
+            if edge_type not in self._edge_graphs:
+                graph.remove_edge_type(edge_type)
         for edge_type, _graph in zip(self.edge_types, graph_classes):
             if edge_type not in graph.edge_types:
                 graph.add_edge_type(_graph, edge_type)
